@@ -258,6 +258,16 @@ inductive AOut where
   | vec (v : List Q)        -- one value per task
 deriving Repr, DecidableEq
 
+/-- `binary_auroc(…, num_tasks=T)` on a `(T, k)` block with k ≥ 1: one value per task
+    (0-dim for a single task). -/
+def perTask (T : Nat) (cols : List Col) : AOut :=
+  if T = 1 then .scalar (pairAuroc (row cols 0))
+  else .vec ((List.range T).map fun t => pairAuroc (row cols t))
+
+/-- the non-windowed functional `binary_auroc` on explicit samples (raises on none). -/
+def binaryAuroc (T : Nat) (cols : List Col) : Except Err AOut :=
+  if cols.isEmpty then .error .runtime else .ok (perTask T cols)
+
 /-- `_binary_auroc_compute(x.squeeze(), …)` on a `(T, k)` block: `squeeze()` drops every
     dimension of size 1, so `(1,k)` → `(k,)`, `(1,1)` → 0-dim (raises), `(T,1)` → `(T,)`
     (the T tasks are scored as T samples of ONE task), `(·,0)` raises. -/
@@ -265,8 +275,7 @@ def aurocSqueezed (T : Nat) (cols : List Col) : Except Err AOut :=
   match cols with
   | [] => .error .runtime
   | [c] => if T = 1 then .error .runtime else .ok (.scalar (pairAuroc c))
-  | _ => if T = 1 then .ok (.scalar (pairAuroc (row cols 0)))
-         else .ok (.vec ((List.range T).map fun t => pairAuroc (row cols t)))
+  | cols => .ok (perTask T cols)
 
 def SBuf.compute (s : SBuf) : Except Err AOut :=
   aurocSqueezed s.tasks (if s.zeroBeyond then s.buf.take s.next else s.buf)
